@@ -501,7 +501,7 @@ func (fr *Frame) indexAddr(x *ssa.IndexAddr, st *State, reach string) Val {
 	case *types.Slice:
 		s := c.termOf(base)
 		fr.oblige("safety", "index "+text, reach, and(app("<=", "0", idx), app("<", idx, app("sl_len", s))), x.Pos())
-		abs := c.smt.define("ix", "Int", elemIdx(slOff(c.smt, s), idx))
+		abs := c.smt.define("ix", "Int", elemIdx(slOff(c.smt, s), idx, refElem(u.Elem())))
 		return Val{T: x.Type(), Addr: &Addr{Kind: akElem, Ref: slBase(c.smt, s), Idx: abs, RootT: u.Elem()}}
 	case *types.Pointer:
 		arr := u.Elem().Underlying().(*types.Array)
